@@ -1006,12 +1006,14 @@ Lemma run_ops_exec : forall c os s, run_ops c s os = exec c s (script_labels c s
 Proof.
   induction os as [|o os IH]; intros s; cbn [run_ops script_labels]; [reflexivity|].
   unfold do_op. destruct (step c s (op_label o)) as [s1|e|p] eqn:Es.
-  - unfold settle.
-    destruct (exec c s1 (settle_labels c (settle_fuel s1) s1)) as [s2|e|p] eqn:Ex.
+  - destruct (exec c s1 (op_settle c o s1)) as [s2|e|p] eqn:Ex.
     + cbn [bind exec]. rewrite Es. rewrite (exec_app c _ _ s1 s2 Ex). apply IH.
     + exfalso. eapply exec_not_err. exact Ex.
     + cbn [bind exec]. rewrite Es. symmetry. exact Ex.
-  - cbn [bind]. apply IH.
+  - destruct (exec c s (op_settle c o s)) as [s2|e'|p] eqn:Ex.
+    + cbn [bind]. rewrite (exec_app c _ _ s s2 Ex). apply IH.
+    + exfalso. eapply exec_not_err. exact Ex.
+    + cbn [bind]. symmetry. exact Ex.
   - cbn [bind exec]. rewrite Es. reflexivity.
 Qed.
 
